@@ -1099,7 +1099,7 @@ def _stringy(t: Term) -> bool:
 def _listy(t: Term) -> bool:
     while t[0] == "obj":
         t = t[2]
-    return t[0] in ("list", "tuple") or (t[0] == "comp" and t[1] == "list") or (t[0] == "bin" and t[1] == "Concat") or (t[0] == "call" and t[1] in (("name", "list"), ("name", "tuple")))
+    return t[0] in ("list", "tuple") or (t[0] == "idx" and t[2][0] == "slice") or (t[0] == "comp" and t[1] == "list") or (t[0] == "bin" and t[1] == "Concat") or (t[0] == "call" and t[1] in (("name", "list"), ("name", "tuple")))
 
 
 def _n_stmts(node: ast.AST) -> int:
